@@ -136,7 +136,8 @@ public:
    */
   static double randGamma(double alpha, double beta)
   {
-    std::gamma_distribution<double> dis(alpha, beta);
+    // std::gamma_distribution takes a scale, beta is a rate as in pGamma/qGamma
+    std::gamma_distribution<double> dis(alpha, 1. / beta);
     return dis(DEFAULT_GENERATOR);
   }
 
